@@ -79,6 +79,10 @@ def vecStep (s : OV Nat) (toks : List String) : Option (OV Nat × String) :=
       match s.poll i with
       | none => some (s, "bad-sub")
       | some (it, s') => some (s', it.show)
+  | ["replica", r] =>     -- the ghost replica of the stream invariant (Lemmas/StreamInv.lean)
+    match r.toNat?.bind (s.subs[·]?) with
+    | none => some (s, "bad-sub")
+    | some sub => some (s, match sub.replica with | some rep => showList rep | none => "undefined")
   | ["drain", r] =>
     match r.toNat? with
     | none => some (s, "bad-op")
